@@ -12,7 +12,7 @@ use rust_cc::{collect_cycles, Cc, Context, Finalize, Trace};
 
 use crate::world::Violation;
 
-const MAXP: usize = 160;
+const MAXP: usize = 200;
 
 thread_local! {
     static TRACES: RefCell<[u32; MAXP]> = const { RefCell::new([0; MAXP]) };
@@ -243,7 +243,7 @@ pub fn run() -> (ProbeStats, Vec<Violation>) {
     macro_rules! arrays { ($($n:literal),+) => { $( all::<[Probe; $n]>(concat!("array ", stringify!($n)), s, v); )+ }; }
     arrays!(0, 1, 2, 3, 4, 5, 6, 7, 8, 9, 10, 11, 12, 13, 14, 15, 16, 17, 18, 19, 20, 21, 22, 23, 24, 25, 26, 27, 28, 29, 30, 31, 32);
     // Vec and slices of every length 0..=8
-    for len in 0..=8usize {
+    for len in (0..=20usize).chain([31, 32, 33, 40, 64, 65, 100, 127, 128, 129]) {
         let vecv: Vec<Probe> = (0..len).map(Probe).collect();
         judge(&format!("Vec len {}", len), vecv, vec![1; len], vec![1; len], s, v, |_, c| c());
         let sl: Box<[Probe]> = (0..len).map(Probe).collect::<Vec<_>>().into_boxed_slice();
